@@ -12,7 +12,7 @@ from ..ctx import stable_hash
 
 ID = "C13"
 LEVEL = "exploration"
-TIERS = {"quick": {"shards": 16, "budget_s": 120, "runs": 100, "line_runs": 10, "systematic_pipelines": 2, "systematic_deviations": 1, "stress_runs": 8},
+TIERS = {"quick": {"shards": 16, "budget_s": 120, "runs": 100, "line_runs": 16, "systematic_pipelines": 2, "systematic_deviations": 1, "stress_runs": 8},
          "thorough": {"shards": 16, "budget_s": 900, "runs": 9000, "line_runs": 600, "systematic_pipelines": 6, "systematic_deviations": 2, "stress_runs": 150}}
 RULE = ("Pipelines as the command line builds them - reader wrapped by the real StreamSaverWorker (its own writer thread), "
         "TokenizerWorker, AudioEventsJoinerWorker and RegionSaverWorker observers - run under the deterministic scheduler of C12 "
@@ -197,6 +197,12 @@ def one(ctx, case, tmpdir):
         ctx.count("runs_on_event_free_stream")
     if case.get("line_p"):
         ctx.count("line_mode_runs")
+        if case.get("line_gran") == "instr":
+            ctx.count("instruction_mode_runs")
+            ctx.maxi("instruction_sites_seen", res.info["lines_seen"])
+        elif case.get("line_scope") == "all":
+            ctx.count("all_module_line_mode_runs")
+            ctx.maxi("all_module_lines_seen", res.info["lines_seen"])
         ctx.count("line_preemptions", res.info["line_preemptions"])
     # did the writer lag (items still queued when the stop marker was consumed) or flush mid-stream?
     ok = check_run(ctx, case, data, res, expected, tmpdir)
@@ -476,7 +482,7 @@ def run_shard(ctx):
         stress(ctx, conf, tmpdir)
         rng = ctx.rng("lines")
         for i in range(conf["line_runs"]):
-            case = shape_case(rng, P.random_pipeline_case(rng, max_windows=16, want_saver=True, line_mode=True))
+            case = shape_case(rng, P.random_pipeline_case(rng, max_windows=16 if i % 4 == 0 else 9, want_saver=True, line_mode=(True, "instr", "all", "instr")[i % 4]))
             one(ctx, case, tmpdir)
             if ctx.out_of_time():
                 break
@@ -496,7 +502,7 @@ def inconclusive(merged, tier):
     c = merged["counters"]
     need = ["scheduled_runs", "saver_runs", "blocks_checked", "joiner_files_checked", "joiner_files_with_zero_events",
             "region_dirs_checked", "region_files_checked", "runs_on_empty_stream", "runs_on_event_free_stream", "runs_with_a_stop", "runs_with_short_reads",
-            "line_mode_runs", "timeouts_fired", "systematic_schedules", "systematic_pipelines_fully_enumerated", "stress_runs", "stress_files_checked", "huge_backlog_runs", "raw_export_runs", "unencodable_export_runs", "two_pipeline_runs", "timeout_marathon_runs"]
+            "line_mode_runs", "instruction_mode_runs", "all_module_line_mode_runs", "timeouts_fired", "systematic_schedules", "systematic_pipelines_fully_enumerated", "stress_runs", "stress_files_checked", "huge_backlog_runs", "raw_export_runs", "unencodable_export_runs", "two_pipeline_runs", "timeout_marathon_runs"]
     out = [f"monitor never observed {k}" for k in need if c.get(k, 0) == 0]
     if c.get("max:queue_depth", 0) < 16384:
         out.append("the writer never lagged by more than 16384 blocks")
